@@ -44,7 +44,7 @@ def run(ctx):
         return [c for c in fr.gen_speed(tier, rng) if spd.in_domain(c)]
     import crosscut as cc
     return adapters.simple_run(
-        ctx, [(roc, gen_roc), (spd, gen_speed)], blocks=(cc.layout_block, cc.reuse_block),
+        ctx, [(roc, gen_roc), (spd, gen_speed)], blocks=(cc.layout_block, cc.reuse_block, cc.carrier_block),
         rule="rate_of_change: series n<=5 over a value alphabet x time axes with steps from {1,2,60,900,86400,172800}s "
              "(irregular mixes), datetime64 and epoch-second inputs, thresholds with rates exactly on them, length "
              "mismatches; speed: tracks with asymmetric hops, independent missing patterns in lon/lat, thresholds far "
